@@ -962,6 +962,7 @@ func (ex *Exec) loopEnv(fr *Frame, h *ssa.BasicBlock, st *State, li *loopInfo) *
 	env.frame = fr
 	env.loopHdr = h
 	env.old = fr.env0
+	env.wmPre = ex.entry.wm
 	for k, v := range fr.params {
 		env.vars["$entry_"+k] = v
 	}
